@@ -39,7 +39,21 @@ class HierarchyFilter(Filter):
 
     @property
     def parent_changed(self):
-        return hashobj(self._parent_rtdc_ds.filter.all) != self._parent_hash
+        return self._get_parent_hash() != self._parent_hash
+
+    def _get_parent_hash(self):
+        """Hash identifying the events of the parent and its filter
+
+        If the parent is a hierarchy child itself, then its events can
+        change (because a filter of one of its ancestors changed) while
+        its own filter array remains identical. The hash of a hierarchy
+        child depends on the filters of all of its ancestors.
+        """
+        parent = self._parent_rtdc_ds
+        tohash = [parent.filter.all]
+        if parent.format == "hierarchy":
+            tohash.append(parent.hash)
+        return hashobj(tohash)
 
     def apply_manual_indices(self, rtdc_ds, manual_indices):
         """Write to `self.manual`
@@ -137,4 +151,4 @@ class HierarchyFilter(Filter):
         # hold reference to rtdc_ds parent
         # (not to its filter, because that is reinstantiated)
         self._parent_rtdc_ds = parent_rtdc_ds
-        self._parent_hash = hashobj(self._parent_rtdc_ds.filter.all)
+        self._parent_hash = self._get_parent_hash()
